@@ -2,7 +2,7 @@
 # Re-evaluate every filed seeded change against the current checks (rewrites seeded/*/meta.json).
 # usage: selftest/reeval_seeded.sh [name ...]
 cd "$(dirname "$0")/.." || exit 2
-declare -A EXTRA=( [b-c03]="C09" [b-c08]="C09" [b-c12]="C08" [b-c13]="C11" [a-c03]="C17" [c-c03]="C17" [c-c02]="C04" [d-c09]="C06 C07" )
+declare -A EXTRA=( [b-c03]="C09" [b-c08]="C09" [b-c12]="C08" [b-c13]="C11" [a-c03]="C17" [c-c03]="C17" [c-c02]="C04" [d-c09]="C06 C07" [g-c13]="C16" )
 names=("$@"); [ ${#names[@]} -eq 0 ] && names=($(ls seeded | grep -E '^[a-z]-c[0-9]+$'))
 for n in "${names[@]}"; do
   p="C${n#*-c}"
